@@ -173,6 +173,8 @@ def gen_lock(rng, idx, tier, force=None):
         for t in range(k - n, min(T, k + 3 * n) + 1):
             c["hist"][t] = c["hist"][k - n]
     c["traj"] = (idx % 3 == 0)
+    # without the optional outputs (velocity, energy, forces: the defaults) the variable keeps less per-step history of its own
+    c["outputs"] = force.get("outputs", rng.random() < 0.5)
     return c
 
 
@@ -192,7 +194,7 @@ def klass(case):
 def config(case):
     v = VARS[case["var"]]
     ext = ctl.ext_block(case["sigma"], case["tau"], case["gamma"], temp=case["ext_temp"], refl_lower=case["refl_lo"],
-                        refl_upper=case["refl_hi"], tsf=case["tsf"], subtract=case["subtract"])
+                        refl_upper=case["refl_hi"], tsf=case["tsf"], subtract=case["subtract"], outputs=case.get("outputs", True))
     if case["var"] == "d1":
         cv = ctl.cv_d1(extra=ext)
     elif case["var"] == "d2":
@@ -675,8 +677,8 @@ def analyse(c, case, outs):
             # trajectory columns of the same calc
             if traj is not None:
                 row = traj[si]
-                for col, o in (("r_" + name, x_rep), ("vr_" + name, v_rep), ("Ep_" + name, Ep), ("Ek_" + name, Ek), ("ft_" + name, ft),
-                               (name, xa), ("fa_" + name, fa)):
+                for col, o in ((("r_" + name, x_rep), ("vr_" + name, v_rep), ("Ep_" + name, Ep), ("Ek_" + name, Ek), ("ft_" + name, ft),
+                                (name, xa), ("fa_" + name, fa)) if case.get("outputs", True) else (("r_" + name, x_rep), (name, xa))):
                     if col not in row or not close(row[col], o, 2e-14, 1e-300):
                         V.bad = ("traj_column:%s" % col.split("_")[0], "step %d: column %s = %r, value at this step %.17g" % (t, col, row.get(col), o))
                         return V
